@@ -9,7 +9,7 @@ from sa.cfg import CFG
 from sa.effects import Purity
 from sa.model import AnalysisError, FuncInfo, Program, dotted, norm, walk_local
 from sa.report import Context
-from sa.rules import c15
+from sa.rules import c15, common
 from sa.state import MUTATORS
 from sa.util import PathBudgetExceeded, enumerate_paths, func_key, where
 
@@ -21,7 +21,7 @@ EXPLANATION = (
     "call that the effect summary does not prove pure (including calls inside the loop condition). A path that writes "
     "nothing it reads re-executes identically for ever on any input that takes it once. R01c no 'for' loop grows or resizes the collection it iterates over (about 140 loops). R01b the three parser passes "
     "run only inside the handler that converts any exception to a tokenization error (so an internal error is at "
-    "least reported, =R15a). Not decided: absence of assertion failures and index errors, polynomial work, loops "
+    "least reported, =R15a). Not decided: absence of assertion failures and index errors, None held in object fields, polynomial work (including polynomial regular expressions), loops "
     "whose progress is made by a callee that may or may not mutate (the two known non-termination / assertion "
     "defects quoted in the property are of that kind and are out of this family's reach), recursion depth."
 )
@@ -230,9 +230,46 @@ def r01c(ctx: Context) -> None:
         raise AnalysisError(f"only {loops} for loops found")
 
 
+def r01e(ctx: Context) -> None:
+    """Bounded work: a backtracking regular expression with a repeated group whose iterations can
+    overlap takes time exponential in the length of a near miss.  Every pattern of the package is
+    recovered as a constant and its parse tree (re._parser) inspected; a pattern that is not a
+    constant must not be reachable from the per-file processing."""
+    from sa import regex_model
+    from sa.rules.common import FSH
+
+    prog = ctx.prog
+    rule = ctx.rule("R01e", "no regular expression has a repeated group that matches the same run in more than one way", 8)
+    per_file = prog.reachable([prog.method(FSH, "process_files_to_scan")])
+    for module, klass, func, node, pattern in regex_model.patterns(prog):
+        owner = func.short if func is not None else klass.name if klass is not None else module.name
+        key = f"{owner}: {norm(node.args[0])[:70]}"
+        location = f"{module.rel}:{node.lineno}"
+        if pattern is None:
+            if func is not None and func.qualname in per_file:
+                rule.fail(key, location, "a regular expression that is not a compile-time constant is used while a file is processed: its matching cost cannot be bounded from the source")
+            else:
+                rule.ok(key, "built from configuration, matched against identifiers outside the per-file path")
+            continue
+        problem = regex_model.parse_error(pattern)
+        if problem:
+            rule.fail(key, location, f"the pattern {pattern!r} does not compile: {problem}")
+            continue
+        ambiguity = regex_model.unary_ambiguity(pattern)
+        if ambiguity:
+            rule.fail(key, location, f"pattern {pattern[:90]!r}: {ambiguity}")
+        else:
+            rule.ok(key, "no repeated group with overlapping iterations")
+
+
 def run(ctx: Context) -> None:
     r01(ctx)
     r01c(ctx)
+    r01e(ctx)
+    common.optional_dereferences(
+        ctx, "R01d", "no parameter or local of the parser that may be None is dereferenced unguarded on any path",
+        lambda rel: not rel.startswith(("pymarkdown/plugins/", "pymarkdown/plugin_manager/", "pymarkdown/extension_manager/")), 150,
+    )
     c15.r15a(ctx)
     ctx.rules[-1].rule_id = "R01b"
     for finding in ctx.rules[-1].findings:
